@@ -293,7 +293,10 @@ def judge_kern(ctx, c, rep_q, rep_f):
     ai = np.array([0, 1], np.uint8)
     i1 = np.array([0, 1, 0], np.uint8)
     i2 = np.array([0, 1, 1], np.uint8)
-    out = weight_power_scale(vis, w, ai, i1, i2, divide=bool(c['divide']))[:, 0, 2]
+    try:
+        out = weight_power_scale(vis, w, ai, i1, i2, divide=bool(c['divide']))[:, 0, 2]
+    except Exception as e:   # noqa: BLE001
+        return [(f'weight_power_scale raised {type(e).__name__}: {e}', c)], False
     impl_s, spec_s, fam = rep_q.split(';')
     spec = dec_scalars(spec_s)
     # (1) hardware-float mirror: advisory only
@@ -372,8 +375,13 @@ def gen_wps(rng):
 def lines_wps(c):
     from katdal.vis_flags_weights import corrprod_to_autocorr
     cps = [tuple(p) for p in c['cps']]
-    ai, i1, i2 = corrprod_to_autocorr(cps)
-    c['_idx'] = (ai, i1, i2)
+    try:
+        ai, i1, i2 = corrprod_to_autocorr(cps)
+    except Exception as e:   # noqa: BLE001
+        c['_idx'] = e
+        ai = i1 = i2 = []
+    else:
+        c['_idx'] = (ai, i1, i2)
     d = '1' if c['divide'] else '0'
     dims = f"{c['T']} {c['F']} {len(cps)}"
     return [f"wspec {d} {dims} {enc_cps(cps)} {enc(c['re'])} {enc(c['w'])}",
@@ -391,12 +399,17 @@ def judge_wps(ctx, c, rep_spec, rep_mirror):
     vis.real = re      # keep NaN/inf real parts untouched by the complex arithmetic above
     vis.imag = im
     w = np.array(c['w'], np.float32).reshape(shape)
+    if isinstance(c['_idx'], Exception):
+        return [(f'corrprod_to_autocorr raised {type(c["_idx"]).__name__} on a complete product list', c)], False
     ai, i1, i2 = c['_idx']
-    if c['use_out']:
-        buf = np.full(shape, -1, np.float32)
-        out = weight_power_scale(vis, w, ai, i1, i2, buf, bool(c['divide']))
-    else:
-        out = weight_power_scale(vis, w, ai, i1, i2, divide=bool(c['divide']))
+    try:
+        if c['use_out']:
+            buf = np.full(shape, -1, np.float32)
+            out = weight_power_scale(vis, w, ai, i1, i2, buf, bool(c['divide']))
+        else:
+            out = weight_power_scale(vis, w, ai, i1, i2, divide=bool(c['divide']))
+    except Exception as e:   # noqa: BLE001
+        return [(f'weight_power_scale raised {type(e).__name__}: {e}', c)], False
     res = []
     if rep_spec.startswith('E:'):
         return [(f'model spec raised {rep_spec} on a complete product list', c)], False
@@ -623,8 +636,11 @@ def judge_vv(ctx, c, rep):
         else:
             vis[:, 0, k] = xs * (1 - 2j) + k
     dvis = da.from_array(vis, chunks=((n,), (1,), tuple(c['chunks_b'])))
-    with dask.config.set(scheduler='synchronous'):
-        out = correct_autocorr_quantisation(dvis, np.array(cps)).compute()
+    try:
+        with dask.config.set(scheduler='synchronous'):
+            out = correct_autocorr_quantisation(dvis, np.array(cps)).compute()
+    except Exception as e:   # noqa: BLE001
+        return [(f'correct_autocorr_quantisation raised {type(e).__name__}: {e}', c)], False
     res = []
     cross = [k for k in range(B) if k not in autos]
     if cross and not np.array_equal(out[..., cross], vis[..., cross]):
@@ -686,7 +702,11 @@ def make_exc_dataset(c):
 
 
 def lines_exc(c):
-    syn = make_exc_dataset(c)
+    try:
+        syn = make_exc_dataset(c)
+    except Exception as e:   # noqa: BLE001
+        c['_syn'] = e
+        return ['c2a a:a']
     c['_syn'] = syn
     st = syn.stored
     cps = [tuple(p) for p in syn.corrprods]
@@ -699,12 +719,17 @@ def lines_exc(c):
 
 def judge_exc(ctx, c, rep):
     syn = c.pop('_syn')
+    if isinstance(syn, Exception):
+        return [(f'synthetic v4 data set could not be opened: {type(syn).__name__}: {syn}', c)], False
     d = syn.dataset
     st = syn.stored
     shape = st['correlator_data'].shape
     res = []
     with dask.config.set(scheduler='synchronous'):
-        w = d.weights[:]
+        try:
+            w = d.weights[:]
+        except Exception as ex:   # noqa: BLE001
+            return [(f'd.weights[:] raised {type(ex).__name__}: {ex}', c)], False
         try:
             e = d.excision[:]
             eerr = None
@@ -785,8 +810,12 @@ def judge_avg(ctx, c, rep_spec, rep_mirror):
     fl = np.array(c['flags'], bool).reshape(shape)
     ts = 1000.0 + 8.0 * np.arange(T)
     fr = 1e9 + 1e6 * np.arange(F)
-    av_vis, av_w, av_f, av_ts, av_fr = average_visibilities(vis, w, fl, ts, fr, timeav=c['timeav'],
-                                                            chanav=c['chanav'], flagav=bool(c['flagav']))
+    try:
+        av_vis, av_w, av_f, av_ts, av_fr = average_visibilities(vis, w, fl, ts, fr, timeav=c['timeav'],
+                                                                chanav=c['chanav'], flagav=bool(c['flagav']))
+    except Exception as e:   # noqa: BLE001
+        return [(f'average_visibilities raised {type(e).__name__}: {e} (timeav={c["timeav"]}, chanav={c["chanav"]} '
+                 f'on {shape})', c)], False
     res = []
     sshape, sre, sim, sw, sfl = parse_av(rep_spec)
     ctx.tag('avg-or' if c['flagav'] else 'avg-and',
